@@ -270,6 +270,12 @@ func c11History(srv *svc.Server, c *core.Collector, seed uint64, hid int, base i
 	close(stopSend)
 	swg.Wait()
 	end := svc.Stamp() + 1
+	if svc.RaceMode { // C18 drives this workload without the logical clock: no history to check
+		mu.Lock()
+		nops = len(conns)*2 + len(sends)
+		mu.Unlock()
+		return nil, false, nil, nops
+	}
 	// ---- build the history
 	var ops []porcupine.Operation
 	mu.Lock()
